@@ -1757,9 +1757,78 @@ def run_corpus(ctx, out):
     run_api_cases(cases, out)
 
 
+def run_reuse(ctx, out):
+    """One Properties object used for several packets and changed in between (assignment, `del`, clear()): every packet must
+    carry what the object holds when the call is made.  Judged against a fresh client given a fresh object with the same
+    values (whose bytes the main correspondence ties to the specification).  Seed S-C04-5: pack() memoised, stale after del."""
+    import copy
+
+    def connected():
+        c = impl.make_client(protocol=mqtt.MQTTv5)
+        c.connect("h")
+        c.socks[-1].feed(impl.connack(0, v5=True))
+        c.loop_read()
+        return c
+
+    def wire_after(c, f):
+        n = len(c.socks[-1].wire)
+        f(c)
+        return bytes(c.socks[-1].wire[n:])
+    steps = [
+        [("set", "ContentType", "a/b"), ("set", "UserProperty", [("k", "v")]), ("send",), ("clear",), ("send",)],
+        [("set", "CorrelationData", b"\x01"), ("set", "ResponseTopic", "r"), ("send",), ("del", "CorrelationData"), ("send",)],
+        [("set", "UserProperty", [("a", "b")]), ("send",), ("set", "UserProperty", [("c", "d")]), ("send",), ("del", "UserProperty"), ("send",)],
+        [("set", "MessageExpiryInterval", 5), ("send",), ("set", "MessageExpiryInterval", 6), ("send",), ("clear",), ("set", "ContentType", "z"), ("send",)],
+    ]
+    for kind in ("publish", "subscribe", "unsubscribe"):
+        ptype = {"publish": PacketTypes.PUBLISH, "subscribe": PacketTypes.SUBSCRIBE, "unsubscribe": PacketTypes.UNSUBSCRIBE}[kind]
+        for seq in steps:
+            if kind != "publish":
+                seq = [st for st in seq if st[0] != "set" or st[1] == "UserProperty"]
+            c = connected()
+            props = Properties(ptype)
+            held = {}
+            for i, st in enumerate(seq):
+                if st[0] == "set":
+                    setattr(props, st[1], copy.deepcopy(st[2]))
+                    held[st[1]] = (held.get(st[1], []) + st[2]) if st[1] == "UserProperty" else st[2]
+                elif st[0] == "del":
+                    if st[1] in held:
+                        delattr(props, st[1])
+                        del held[st[1]]
+                elif st[0] == "clear":
+                    props.clear()
+                    held.clear()
+                else:
+                    fresh = Properties(ptype)
+                    for n, v in held.items():
+                        setattr(fresh, n, copy.deepcopy(v))
+                    ref = connected()
+                    ref._last_mid = c._last_mid
+
+                    def call(cl, pr):
+                        if kind == "publish":
+                            cl.publish("t", b"x", 1, properties=pr)
+                        elif kind == "subscribe":
+                            cl.subscribe("t", 0, properties=pr)
+                        else:
+                            cl.unsubscribe("t", properties=pr)
+                    got = wire_after(c, lambda cl: call(cl, props))
+                    exp = wire_after(ref, lambda cl: call(cl, fresh))
+                    out.cases += 1
+                    out.validated += 1
+                    out.stat("reused_properties_object")
+                    if got != exp:
+                        out.violations.append({"signature": "C04-reused-properties-object",
+                                               "what": f"{kind}() with a Properties object changed since its last use ({seq[:i]}): packet {got.hex()}, "
+                                                       f"a fresh object holding the same values gives {exp.hex()}",
+                                               "case": {"kind": "reuse", "api": kind, "steps": [list(map(str, x)) for x in seq[:i + 1]]}})
+
+
 def run(ctx, out):
     rng = ctx.rng
     run_corpus(ctx, out)
+    run_reuse(ctx, out)
     run_rl(ctx, out)
     run_utf8(ctx, out)
     cases = gen_publish_cases(ctx, rng) + gen_connect_cases(ctx, rng) + gen_sub_cases(ctx, rng) + gen_disc_cases(ctx, rng)
@@ -1775,6 +1844,11 @@ def run(ctx, out):
 def replay(payload):
     case = payload.get("case", {})
     k = case.get("kind")
+    if k == "reuse":
+        from vlib.main import Outcome
+        o = Outcome()
+        run_reuse(None, o)
+        return (not o.violations), {"violations_now": [v["what"][:300] for v in o.violations[:3]]}
     if k in IMPL:
         if any(isinstance(case.get(f), dict) and "text_len_chars" in case[f] for f in ("topic", "client_id", "username")):
             return True, {"note": "argument was abbreviated in the replay file; re-run the check to regenerate it"}
